@@ -1,3 +1,118 @@
 // in-place Kani harnesses for src/style.rs (child module: sees private items via super::*)
 #![allow(unused_imports, dead_code)]
 use super::*;
+
+// std's RandomState::new() reads OS randomness (unsupported by Kani); format_bar never touches the
+// custom-key map, so a fixed hasher state is used in the fixture (-Z stubbing).
+fn fixed_random_state() -> std::collections::hash_map::RandomState {
+    unsafe { std::mem::zeroed() }
+}
+
+fn mk_style(nchars: usize, char_width: usize) -> ProgressStyle {
+    let mut pcs: Vec<Box<str>> = Vec::new();
+    let mut i = 0;
+    while i < nchars {
+        pcs.push("x".into());
+        i += 1;
+    }
+    ProgressStyle {
+        tick_strings: Vec::new(),
+        progress_chars: pcs,
+        template: Template { parts: Vec::new() },
+        char_width,
+        tab_width: 8,
+        format_map: HashMap::default(),
+    }
+}
+
+/// C13 / C14: geometry of format_bar for EVERY fraction in [0,1] (all f32 bit patterns in range),
+/// every bar width up to u16::MAX columns, cell widths 1..=2 and 2..=5 progress characters.
+/// Loop-free in the function under test (the only loop builds the fixture): complete for the
+/// stated domain.
+#[kani::proof]
+#[kani::unwind(7)]
+#[kani::stub(std::collections::hash_map::RandomState::new, fixed_random_state)]
+fn c13_format_bar_geometry() {
+    let nchars: usize = kani::any();
+    kani::assume(nchars >= 2 && nchars <= 5);
+    let cw: usize = kani::any();
+    kani::assume(cw >= 1 && cw <= 2);
+    let style = mk_style(nchars, cw);
+    let fract: f32 = kani::any();
+    kani::assume(fract >= 0.0 && fract <= 1.0);
+    let width: usize = kani::any();
+    kani::assume(width <= 65_535);
+    let bar = style.format_bar(fract, width, None);
+    let cells = width / cw;
+    let fill = fract * cells as f32;
+    // filled cells: floor(fraction * cells), never more than the bar has
+    assert!(bar.filled == fill as usize, "filled == floor(fraction*cells)");
+    assert!(bar.filled <= cells, "filled <= cells");
+    // exactly one partial cell iff the bar is neither empty nor full
+    assert!(bar.cur.is_some() == (fill > 0.0 && bar.filled < cells), "partial cell iff neither empty nor full");
+    if fract == 0.0 {
+        assert!(bar.filled == 0 && bar.cur.is_none(), "empty at fraction 0");
+    }
+    if fract == 1.0 {
+        assert!(bar.filled == cells && bar.cur.is_none(), "full at fraction 1");
+    }
+    // the partial cell is one of the configured progress characters
+    if let Some(c) = bar.cur {
+        assert!(c >= 1 && c < nchars, "partial cell index within progress_chars");
+        assert!(c < bar.chars.len(), "index valid for BarDisplay::fmt");
+    }
+    kani::cover!(bar.cur.is_some() && bar.filled > 0, "cover: partially filled");
+}
+
+fn mk_state(pos: u64, len: Option<u64>) -> ProgressState {
+    use crate::state::AtomicPosition;
+    let ap = std::sync::Arc::new(AtomicPosition::new());
+    ap.set(pos);
+    ProgressState::new(len, ap)
+}
+
+/// C13: the filled count equals the cell count exactly when position >= length, and is 0 at
+/// position 0 -- for all lengths and positions up to 2^24 (where f32 division is exact enough),
+/// all bar widths up to u16::MAX, one-column cells.
+#[kani::proof]
+#[kani::unwind(4)]
+#[kani::stub(std::collections::hash_map::RandomState::new, fixed_random_state)]
+#[kani::stub(std::time::Instant::now, zero_instant)]
+fn c13_full_iff_complete() {
+    let style = mk_style(2, 1);
+    let pos: u64 = kani::any();
+    let len: u64 = kani::any();
+    kani::assume(pos <= 1 << 24 && len >= 1 && len <= 1 << 24);
+    let st = mk_state(pos, Some(len));
+    let width: usize = kani::any();
+    kani::assume(width >= 1 && width <= 65_535);
+    let bar = style.format_bar(st.fraction(), width, None);
+    assert!((bar.filled == width) == (pos >= len), "full exactly when position >= length");
+    if pos == 0 {
+        assert!(bar.filled == 0, "empty at position 0");
+    }
+    kani::cover!(bar.filled > 0 && bar.filled < width, "cover: strictly inside");
+}
+
+fn zero_instant() -> Instant {
+    unsafe { std::mem::zeroed() }
+}
+
+/// C13: the filled count is monotone in the position (same length, same width).
+#[kani::proof]
+#[kani::unwind(4)]
+#[kani::stub(std::collections::hash_map::RandomState::new, fixed_random_state)]
+#[kani::stub(std::time::Instant::now, zero_instant)]
+fn c13_filled_monotone() {
+    let style = mk_style(2, 1);
+    let p1: u64 = kani::any();
+    let p2: u64 = kani::any();
+    let len: u64 = kani::any();
+    kani::assume(p1 <= p2 && p2 <= 1 << 24 && len >= 1 && len <= 1 << 24);
+    let width: usize = kani::any();
+    kani::assume(width <= 65_535);
+    let b1 = style.format_bar(mk_state(p1, Some(len)).fraction(), width, None);
+    let b2 = style.format_bar(mk_state(p2, Some(len)).fraction(), width, None);
+    assert!(b1.filled <= b2.filled, "filled count is monotone in the position");
+    kani::cover!(b1.filled < b2.filled, "cover: strictly increasing");
+}
